@@ -1,17 +1,20 @@
 From Coq Require Import NArith List String.
-From PK Require Import Base.Outcome Base.Machine Base.Reach Gen.Types Impl Ext.Set1 ExtI.Scan Check.Scan Check.C07 Enc.
+From PK Require Import Base.Outcome Base.Machine Base.Reach Gen.Types Impl Spec.ScanRef Spec.ScanAuto Ext.Set1 ExtI.Scan Check.Scan Check.C07 Enc.
 Import ListNotations.
 Local Open Scope N_scope.
 Notation I := ext_set1.
 Notation s0 := 0.
 Notation key := (fun s : N => s).
 (* witness: a shortest byte stream whose last byte is answered with an event/error (or a panic) without the
-   decoder returning to its initial state, followed by the probe 0x1C whose decoding then differs *)
+   decoder returning to its initial state, followed by a complete sequence that is then decoded differently
+   than by a fresh decoder (if none of the 768 candidate sequences shows it: the probe 0x1C) *)
+Definition continuations : list (list N) := flat_map (fun p => map (fun c => path1 p ++ [c]) all_bytes) all_prefix.
+Definition last_of (bs : list N) : outcome sc_result := omap (fun os => last os (Ok None)) (outs (scan_machine I) s0 bs).
 Eval vm_compute in ("cex"%string,
   match find_nonresetting I key s0 with
   | Some bs =>
-      [(1 :: bs ++ [0x1C],
-        enc_sc (omap snd (sc_step I s0 0x1C)),
-        enc_sc (omap (fun os => last os (Ok None)) (outs (scan_machine I) s0 (bs ++ [0x1C]))))]
+      let t := match find (fun t => negb (outcome_eqb scres_eqb (last_of t) (last_of (bs ++ t)))) continuations with
+               | Some t => t | None => [0x1C] end in
+      [(1 :: bs ++ t, enc_sc (last_of t), enc_sc (last_of (bs ++ t)))]
   | None => []
   end).
